@@ -1377,12 +1377,16 @@ def multi_evidence(rng):
 
 # ------------------------------------------------------------------------------------------- composable fragments
 
-def evidence_branches(rng, slots):
+def evidence_branches(rng, slots, foreign=None):
     """Branch bodies (closures emitting into an Asm) giving each slot several pieces of evidence. Each closure draws
     from its own private RNG so that emitting it twice gives identical code."""
     import random
     kinds = ["dynarray", "mapping", "bool-write", "address-write", "masked-write", "packed-write", "numeric-use",
              "plain-read", "copy-within", "copy-within", "copy-from-mapping", "copy-from-mapping", "grown-write"]
+    if foreign:
+        # the *numbers* of slots this fragment does not own, used as plain constants in places that are not the key of
+        # a constant-slot, mapping or array access
+        kinds += ["foreign-const", "foreign-const", "foreign-const"]
     out = []
     for s in slots:
         for k in sorted(set(rng.sample(kinds, rng.randint(1, 3)))):
@@ -1424,6 +1428,30 @@ def evidence_branches(rng, slots):
                     for _ in range(r.choice([0, 1, 3, 5, 6, 7])):
                         a.emit("DUP1", r.choice(["ADD", "MUL"]))
                     a.emit(0, "MSTORE", o if o else ("push", 0, 1), 0x20, "MSTORE", 0x40, 0, "SHA3", "SLOAD", sp, "SSTORE")
+                elif k == "foreign-const":
+                    f = r.choice(foreign)
+                    fp = f if f else ("push", 0, 1)
+                    v = r.choice(["hash3-last", "hash3-mid", "hash3-first", "hash4-last", "key-first", "value", "mem-offset"])
+                    if v.startswith("hash"):
+                        words = [[4, "CALLDATALOAD"], ["CALLER"], [36, "CALLDATALOAD"]][:3 if v.startswith("hash3") else 3]
+                        pos = {"hash3-last": 2, "hash3-mid": 1, "hash3-first": 0, "hash4-last": 3}[v]
+                        n = 4 if v == "hash4-last" else 3
+                        wi = 0
+                        for j in range(n):
+                            if j == pos:
+                                a.emit(fp)
+                            else:
+                                a.emit(words[wi % 3])
+                                wi += 1
+                            a.emit(0x80 + 0x20 * j, "MSTORE")
+                        a.emit(0x20 * n, 0x80, "SHA3")
+                        a.emit("SLOAD", 0, "MSTORE") if r.random() < 0.4 else a.emit(r.choice(["CALLER", "CALLVALUE"]), "SWAP1", "SSTORE")
+                    elif v == "key-first":
+                        a.emit(fp, 0, "MSTORE", sp, 0x20, "MSTORE", 0x40, 0, "SHA3", "SLOAD", 0, "MSTORE")
+                    elif v == "value":
+                        a.emit(fp, r.choice([[], [4, "CALLDATALOAD", "ADD"]]), sp, "SSTORE")
+                    else:
+                        a.emit(sp, "SLOAD", 0x100 + f % 0x400, "MSTORE")
                 elif k == "grown-write":
                     a.emit(r.choice(["CALLVALUE", [4, "CALLDATALOAD"]]))
                     for _ in range(r.choice([1, 3, 6, 8])):
